@@ -337,7 +337,9 @@ pub fn run_families(property: &str, tier: &str, fams: Vec<Family>, budget_s: f64
                         Ok((out.chooser, cont))
                     };
                     let res = if controlled {
-                        explore::explore(fam.dev_bound, fam.max_execs, &mut exec)
+                        // No scenario may run past the end of its family's share of the budget (plus a margin).
+                        let deadline = tf + std::time::Duration::from_secs_f64(fam_budget * 1.25 + 5.0);
+                        explore::explore_until(fam.dev_bound, fam.max_execs, Some(deadline), &mut exec)
                     } else {
                         let mut st = explore::ExploreStats::default();
                         let mut r = Ok(());
